@@ -186,7 +186,7 @@ REGISTRY = {
         undecided_clauses=["readline is inherited from io.BufferedIOBase (external): covered only by the bounded native comparison; readinto has a delegation contract (BinaryZlibFile.readinto)"],
     ),
     "C14": dict(
-        packs=["c13", "mem", "c19"],
+        packs=["c13", "mem", "c19", "c03"],
         level="proof",
         replay=dict(script="replay/c13.py", args=["damaged", "{seed}", "3"], timeout=900, python="/verif/.venv_np/bin/python"),
         bounded=[dict(name="audit-scenarios", script="replay/found.py", args=["C14", "{tier}"], timeout=1500, bound="scenarios contributed by audit sub-agents (replay/found/MANIFEST.json): repaired defects must stay repaired, recorded findings are probed"), dict(name="truncation-and-trailing-bytes", script="replay/c13.py", args=["damaged", "{seed}", "3"], python="/verif/.venv_np/bin/python",
